@@ -4,6 +4,7 @@ from typing import Any, Optional, Sequence, Union
 
 import numpy
 import numpy.typing
+import numpoly
 
 from ..baseclass import ndpoly, PolyLike
 from ..dispatch import implements, simple_dispatch
@@ -64,7 +65,9 @@ def sum(
         polynomial([q1+1, q2+q0])
 
     """
-    return simple_dispatch(
+    # the start value is a number: it belongs to the constant term only
+    initial = kwargs.pop("initial", None)
+    result = simple_dispatch(
         numpy_func=numpy.sum,
         inputs=(a,),
         out=None if out is None else (out,),
@@ -73,3 +76,7 @@ def sum(
         keepdims=keepdims,
         **kwargs,
     )
+    if initial is not None:
+        assert out is None, "'initial' together with 'out' is not supported"
+        result = numpoly.add(result, initial)
+    return result
